@@ -7,6 +7,7 @@ import (
 	"go/types"
 	"math/big"
 	"sort"
+	"strings"
 )
 
 type Val interface{}
@@ -73,6 +74,7 @@ type State struct {
 	cells   map[int]Val
 	pc      []*Term
 	written map[int]bool // cells written (dry-run bookkeeping and frame checks)
+	wfields map[int]map[int]bool // for struct cells: top-level fields written (-1 = the whole cell)
 	dead    bool
 }
 
@@ -86,6 +88,16 @@ func (s *State) clone() *State {
 	}
 	for k := range s.written {
 		n.written[k] = true
+	}
+	if s.wfields != nil {
+		n.wfields = map[int]map[int]bool{}
+		for k, m := range s.wfields {
+			nm := map[int]bool{}
+			for f := range m {
+				nm[f] = true
+			}
+			n.wfields[k] = nm
+		}
 	}
 	n.pc = append([]*Term(nil), s.pc...)
 	return n
@@ -229,6 +241,7 @@ func (c *FCtx) isOpaque(t types.Type) bool {
 
 func abstractSort(t types.Type) Sort {
 	n := typeName(t)
+	n = strings.ReplaceAll(n, "github.com/theQRL/go-qrllib/", "")
 	out := []rune{}
 	for _, r := range n {
 		if r >= 'a' && r <= 'z' || r >= 'A' && r <= 'Z' || r >= '0' && r <= '9' {
@@ -268,6 +281,10 @@ func (c *FCtx) sortOf(t types.Type) Sort {
 			return SBool
 		}
 		return abstractSort(t)
+	case *types.Slice:
+		if _, isPtr := u.Elem().Underlying().(*types.Pointer); isPtr {
+			return abstractSort(t)
+		}
 	}
 	fail("no SMT sort for type %s", t)
 	return ""
@@ -374,6 +391,10 @@ func (c *FCtx) freshVal(st *State, name string, t types.Type) Val {
 		}
 		return TV{fs, t}
 	case *types.Slice:
+		if _, isPtr := u.Elem().Underlying().(*types.Pointer); isPtr {
+			// a slice of pointers is carried as one abstract value (only passed along, never destructured)
+			return SV{Sym(c.freshName(name), abstractSort(t)), t}
+		}
 		return c.freshSlice(st, name, u.Elem(), t, false)
 	case *types.Pointer:
 		cell := c.newCell(st, c.freshVal(st, name+"^", u.Elem()))
@@ -470,6 +491,9 @@ func (c *FCtx) zeroVal(st *State, t types.Type) Val {
 		}
 		return TV{fs, t}
 	case *types.Slice:
+		if _, isPtr := u.Elem().Underlying().(*types.Pointer); isPtr {
+			return SV{Sym("zero$"+string(abstractSort(t)), abstractSort(t)), t}
+		}
 		cell := c.newCell(st, MV{c.zeroMem(u.Elem()), u.Elem()})
 		return LV{Cell: cell, Off: Num(0), Len: Num(0), Cap: Num(0), Elem: u.Elem(), IsNil: True(), Typ: t}
 	case *types.Pointer:
@@ -676,6 +700,19 @@ func (c *FCtx) merge(cond *Term, a, b *State, prefix int) (*State, bool) {
 	}
 	for k := range b.written {
 		n.written[k] = true
+	}
+	for _, src := range []*State{a, b} {
+		for k, m := range src.wfields {
+			if n.wfields == nil {
+				n.wfields = map[int]map[int]bool{}
+			}
+			if n.wfields[k] == nil {
+				n.wfields[k] = map[int]bool{}
+			}
+			for f := range m {
+				n.wfields[k][f] = true
+			}
+		}
 	}
 	if prefix > len(a.pc) || prefix > len(b.pc) {
 		return nil, false
